@@ -256,6 +256,9 @@ class RefEval:
                 return v
             if f.a in self.const_forms:
                 return self.constant(f.a)
+            if f.a in self.funs:
+                params, body = self.funs[f.a]
+                return Closure({}, params, body)          # a function named as a value: something that can be applied
             raise RefOutside('unbound identifier %s' % f.a.decode())
         items, tail = f_items(f)
         head = items[0]
@@ -709,6 +712,24 @@ TEMPLATES += [
     ('const_call_in_helper', '(mod (L) {S} (defun H (A B) (+ A B)) (defun G (L) (- L (H 1 2))) (G L))', [('list', 'B')]),
 ]
 
+# a second batch, written to widen the family (function values, mutual recursion, nested lets, more operators)
+TEMPLATES_MORE = [
+    ('lambda_two_captures', '(mod (X Y L) {S} (defun M (F L) (if L (c (a F (list (f L))) (M F (r L))) ())) (M (lambda ((& X Y) Z) (+ (- Z X) Y)) L))', [('list', 'B', 'B', ('list', 'B', 'B'))]),
+    ('nested_let', '(mod (X Y) {S} (defun F (A B) (let ((P (+ A 1))) (let ((Q (- P B)) (A 7)) (list P Q A B)))) (F X Y))', [('list', 'B', 'B')]),
+    ('mutual_recursion', '(mod (L) {S} (defun evens (L) (if L (c (f L) (odds (r L))) ())) (defun odds (L) (if L (evens (r L)) ())) (evens L))', [('list', ('list', 'B', 'B', 'B'))]),
+    ('function_as_value', '(mod (X) {S} (defun twice (F A) (a F (list (a F (list A))))) (defun inc (N) (+ N 1)) (twice inc X))', [('list', 'B')]),
+    ('string_ops', '(mod (X) {S} (defun F (S) (concat S "ab" (substr S 0 1))) (c (strlen (F X)) (F X)))', [('list', 'W'), ('list', 'B')]),
+    ('literals', '(mod (X) {S} (defun F (A) (+ A -1 0x00ff -128)) (c (F X) (q . (-1 0x00 "" 0 "x"))))', [('list', 'B')]),
+    ('if_chain', '(mod (X Y) {S} (defun sgn (A) (if (> A 0) 1 (if (= A 0) 0 -1))) (list (sgn X) (sgn (- X Y))))', [('list', 'B', 'B')]),
+    ('all_any_not', '(mod (X Y) {S} (list (all X Y) (any X Y) (not (all X)) (any)))', [('list', 'B', 'B'), ('list', 'E', 'B')]),
+    ('constant_in_inline', '(mod (X) {S} (defconstant K 3) (defun-inline G (A) (* A K)) (defun F (B) (G (+ B K))) (F X))', [('list', 'B')]),
+    ('rest_param_used', '(mod (X . R) {S} (defun F (A . B) (if B (c A (f B)) A)) (F X &rest R))', [['B', ('list', 'B')], ['B', 'E']]),
+    ('constant_call_in_main', '(mod (X) {S} (defun pick (N L) (if N (pick (- N 1) (r L)) (f L))) (+ X (pick 2 (q . (10 20 30 40)))))', [('list', 'B')]),
+    ('inline_uses_defun', '(mod (X Y) {S} (defun H (A) (+ A 1)) (defun-inline G (P Q) (c (H P) (H Q))) (G (H X) Y))', [('list', 'B', 'B')]),
+]
+
+TEMPLATES += TEMPLATES_MORE
+
 TEMPLATES_23 = [
     ('defconst', '(mod (X) {S} (defconstant K 7) (defconst L (+ K 1)) (defun H (A) (+ A K L)) (H X))', [('list', 'B')]),
     ('assign', '(mod (X Y) {S} (defconstant K 7) (defun H (A) (assign B (+ A K) C (* B 2) (list A B C))) (H X))', [('list', 'B', 'B')]),
@@ -980,7 +1001,8 @@ class ClassicBuilds(BuildsAgree):
     call-by-value evaluation of the source and against the modern cl21 build of the same text"""
     name = 'classic_builds'
     prop = 'C03'
-    CLASSIC_OK = ('arith', 'defun_if', 'destructure', 'constant_atom', 'recursion', 'nested_inline', 'if_lazy', 'cmp_ops', 'macro', 'inline_destructure3')
+    CLASSIC_OK = ('arith', 'defun_if', 'destructure', 'constant_atom', 'recursion', 'nested_inline', 'if_lazy', 'cmp_ops', 'macro', 'inline_destructure3',
+                  'mutual_recursion', 'if_chain', 'inline_uses_defun', 'string_ops')
     PAIRS = {'quick': [(('classic', False), ('cl21', False))], 'thorough': [(('classic', False), ('cl21', False)), (('classic', False), ('cl21', True))]}
     functions = ['clvmc::compile_clvm_text_maybe_opt (classic branch)', 'stage_2::operators::run_program_for_search_paths / CompilerOperators::{op, run_program}',
                  'stage_2::compile::{do_com_prog, compile_qq, compile_macros, compile_symbols, try_expand_macro_for_atom, compile_application, ...}',
